@@ -268,7 +268,7 @@ RA_WITNESS = (corpus.HEADER + "def fz(xn):\n    for ia in range(2):\n        for
 
 def check_c04(tier, t0):
     import proggen
-    progs = pick(all_progs(), tier, 40)
+    progs = pick(all_progs(), tier, 90)
     gen, _gr = proggen.generate("C04_gen", 200 if tier == "thorough" else 30, seed() + 4, max_lines=10, max_depth=3, nfuncs=2)
     progs = progs + [(n, s, "generated") for n, s, _ in gen]
     vecs = [cw.REF, cw.opts(inline_functions=True), cw.opts(use_push_pop_functions=True, tail_call_optimization=True)]
